@@ -685,7 +685,7 @@ theorem d0_reloadOk (u : Pyx.Sql.UC) : ReloadOk u d0 (some 6) false := by
   have hown : findClass d0 1 = some ⟨1, "OWN", [⟨11, "id", .base 102⟩, ⟨12, "name", .base 104⟩, ⟨13, "age", .derived 102⟩], [⟨0, [11]⟩], .pkg 5⟩ := by decide
   have hdog : findClass d0 2 = some ⟨2, "DOG", [⟨21, "tag", .base 51⟩, ⟨22, "color", .base 50⟩, ⟨23, "owner_id", .ref 1 11⟩], [⟨0, [21]⟩, ⟨1, []⟩], .pkg 5⟩ := by decide
   have hlsh : findClass d0 3 = some ⟨3, "LSH", [⟨31, "front", .ref 2 21⟩, ⟨32, "back", .ref 2 21⟩], [⟨0, [31, 32]⟩], .pkg 5⟩ := by decide
-  refine ⟨?_, ?_, by decide, ?_, ?_⟩
+  refine ⟨?_, ?_, by decide, ?_, ?_, by decide, by decide⟩
   · simp only [d0, List.map_cons, List.map_nil]
     rw [up "OWN".toList (by unfold Pyx.Sql.AsciiText; decide), up "DOG".toList (by unfold Pyx.Sql.AsciiText; decide),
       up "LSH".toList (by unfold Pyx.Sql.AsciiText; decide)]
